@@ -146,6 +146,14 @@ for _ in range(4000 if tier == "quick" else 150000):
     k = rng.randint(3, 20)
     text = "".join(rng.choice(TOK) for _ in range(k))
     run(text, rng.choice(OPTS), "random-soup")
+# line-structured documents: block-level markers at line starts, nested lists / tables / refs
+LINE_START = ["* ", "** ", "*: ", "# ", "#* ", ": ", "; ", "{|", "|-", "| ", "|| ", "! ", "!! ", "|+ ", "|}", "*<ref>", "<ref>",
+              "</ref>", "== h ==", "=== s ===", "<div>", "</div>", "----", "", " pre", "<pre>", "</pre>", "{{a|", "}}"]
+INLINE = ["a", "q", "x [[L]] y", "''i''", "{{a|z}}", "", "<b>b</b>", "[http://e.org t]", "! z", "|| c", "<nowiki></nowiki>"]
+for _ in range(3000 if tier == "quick" else 120000):
+    k = rng.randint(2, 9)
+    doc = "\n".join(rng.choice(LINE_START) + rng.choice(INLINE) for _ in range(k))
+    run(doc, rng.choice(OPTS), "line-structured")
 # deep nesting
 for tok_open, tok_close in (("<b>", "</b>"), ("[[", "]]"), ("{{a|", "}}"), ("* ", "\n"), ("<div>", "</div>"), ("''", "''")):
     run(tok_open * 100 + "x" + tok_close * 100, {}, "nesting-100")
